@@ -602,9 +602,18 @@ pub fn sem2(op: Op2, timeline: &[(usize, Ev)], alt: bool) -> Vec<Ev> {
         (0, Ev::Next(v)) => pending = Some(v.clone()),
         (_, Ev::Err(e)) => term!(Ev::Err(e.clone())),
         (0, Ev::Complete) => term!(Ev::Complete),
-        (_, Ev::Next(_)) | (_, Ev::Complete) => {
+        (_, Ev::Next(_)) => {
           if let Some(v) = pending.take() {
             out.push(Ev::Next(v));
+          }
+        }
+        (_, Ev::Complete) => {
+          // the sampler's completion releases the pending value in this library; whether it
+          // counts as a tick is not specified: the other reading keeps it
+          if !alt {
+            if let Some(v) = pending.take() {
+              out.push(Ev::Next(v));
+            }
           }
         }
       },
@@ -629,7 +638,7 @@ pub fn sem2(op: Op2, timeline: &[(usize, Ev)], alt: bool) -> Vec<Ev> {
 }
 
 pub fn has_alt2(op: Op2) -> bool {
-  matches!(op, Op2::Zip | Op2::SkipUntil)
+  matches!(op, Op2::Zip | Op2::SkipUntil | Op2::Sample)
 }
 
 pub fn compare_events(got: &[Ev], want: &[Ev]) -> Result<u32, String> {
